@@ -12,6 +12,7 @@ import (
 	"reflect"
 	"runtime/debug"
 	"strings"
+	"sync/atomic"
 	"time"
 
 	"verif/rt"
@@ -59,7 +60,12 @@ type cfg struct {
 	Inject       bool
 }
 
+// progress is the time of the last completed execution; the watchdog fires only when a single
+// execution does not finish (a slow but advancing exploration is not a hang).
+var progress atomic.Int64
+
 func runOne(p *Prog, side int, ans []int, panicAt int, cf cfg) (log []string, choices, arity []int, events int) {
+	defer progress.Store(time.Now().UnixNano())
 	c := rt.New(ans, cf.F, panicAt)
 	defer c.KillAll()
 	func() {
@@ -387,14 +393,21 @@ func Run(progs []Prog) {
 		fmt.Fprintf(w, "BEGIN %d %s\n", i, p.ID)
 		w.Flush()
 		done := make(chan Result, 1)
+		progress.Store(time.Now().UnixNano())
 		go func() { done <- explore(p, cf) }()
-		select {
-		case r := <-done:
-			enc.Encode(r)
-		case <-time.After(*perProg):
-			fmt.Fprintf(w, "HANG %d %s\n", i, p.ID)
-			w.Flush()
-			os.Exit(3)
+	wait:
+		for {
+			select {
+			case r := <-done:
+				enc.Encode(r)
+				break wait
+			case <-time.After(time.Second):
+				if time.Since(time.Unix(0, progress.Load())) > *perProg {
+					fmt.Fprintf(w, "HANG %d %s\n", i, p.ID)
+					w.Flush()
+					os.Exit(3)
+				}
+			}
 		}
 	}
 }
